@@ -130,3 +130,22 @@ for _pa, _pb, _kind, _what in _shared():
             id=f"table.cross.{_sa}.{_sb}.code.{_what[1]}", func=M + "__getitem__", call=f"{_pb}[{_kb}]",
             setup=[f"first = ({_pa}[{_ka}], {_pa}.get({_ka}))"],
             ensures=[f"spec.tables.is_member_with_key({_pb}, result, {_kb})", f"{_pb}.get({_kb}) == result"], props=["C19"])
+
+# extended status texts: every (general status, extended status) pair of the table resolves to its text, with the extended
+# status sent as one word (size 1) -- extended value 0 included; an unknown pair names the code
+def _ext_pairs():
+    from pycomm3.cip.status_info import EXTEND_CODES
+    return sorted((s, e) for s, tab in EXTEND_CODES.items() for e in tab if 0 <= e <= 0xFFFF)
+
+
+contract(
+    id="status.extended_text", func="pycomm3.packets.util.get_extended_status", call="pycomm3.packets.util.get_extended_status(msg, start)",
+    bind={"pair": [repr(p) for p in _ext_pairs()], "start": ["42", "48"]},
+    setup=["msg = bytes(start) + bytes([pair[0], 1]) + spec.cip_codec.le_uint(pair[1], 2)"],
+    ensures=["isinstance(result, str)", "pycomm3.cip.status_info.EXTEND_CODES[pair[0]][pair[1]] in result"], props=["C19", "C13"])
+contract(
+    id="status.extended_text.unknown", func="pycomm3.packets.util.get_extended_status", call="pycomm3.packets.util.get_extended_status(msg, 42)",
+    bind={"ext": ["0", "1", "0x1234", "0xffff"]}, params={"status": P.int(0, 255)},
+    requires=["status not in pycomm3.cip.status_info.EXTEND_CODES"],
+    setup=["msg = bytes(42) + bytes([status, 1]) + spec.cip_codec.le_uint(ext, 2)"],
+    ensures=["isinstance(result, str)", "spec.tables.hex2(ext) in result"], props=["C19", "C13"])
